@@ -205,13 +205,18 @@ def c18_inst(w, m, length, core=True, timeout=1200):
 
 
 def c18_instances(tier, seed):
+    # whole-run harness: cost grows ~4-5x per extra base (two iterators, R calls each
+    # unrolled to the sequence length): L <= w+1 in the quick tier, w+2 in the thorough tier
     out = []
-    for (w, m) in [(2, 1), (3, 2), (3, 3), (4, 2)]:
-        for length in range(0, w + 4):
+    for (w, m) in [(2, 1), (2, 2), (3, 2), (3, 3)]:
+        for length in range(0, w + 2):
             out.append(c18_inst(w, m, length))
     if tier == "thorough":
-        for length in range(0, 5 + 4):
-            out.append(c18_inst(5, 3, length, core=False, timeout=3600))
+        for (w, m) in [(2, 1), (2, 2), (3, 2), (3, 3)]:
+            out.append(c18_inst(w, m, w + 2, core=False, timeout=3000))
+        for (w, m) in [(4, 2), (5, 3)]:
+            for length in range(0, w + 2):
+                out.append(c18_inst(w, m, length, core=False, timeout=3000))
         for length in (30, 31, 32):
             out.append(c18_inst(31, 31, length, core=False, timeout=3600))
     return out
@@ -324,7 +329,7 @@ def gen_tables(inj, insts):
 def c03_instances(tier, seed):
     out = []
     for k in ((1,) if tier == "quick" else (1, 2)):
-        out.append(Inst("c03_insolver_k%d" % k, "verif_c03", "kmer", "c03_insolver::<%d>(&RANK_K%d, &INV_K%d, COUNT_K%d)" % (k, k, k, k), 4 ** k + 2,
+        out.append(Inst("c03_insolver_k%d" % k, "verif_c03", "kmer", "c03_insolver::<%d>(&RANK_K%d, &INV_K%d, COUNT_K%d)" % (k, k, k, k), 66,
                         {"clause": "encoding validation: real kmer_pos_maps executed by the solver equals the native table", "k": k, "tables": [k]},
                         core=(k == 1), timeout=1500, cost=300.0 * k))
     tks = [1, 2, 3, 4, 5, 6] if tier == "quick" else [1, 2, 3, 4, 5, 6, 7, 8]
@@ -334,20 +339,20 @@ def c03_instances(tier, seed):
                         {"clause": "bijection; table by native run of the real kmer_pos_maps, quantified obligations by the solver", "k": k,
                          "x,y": "symbolic, all codes < 4^k", "p": "symbolic column", "tables": [k]},
                         core=(k <= 6), timeout=1500, cost=10.0 * k))
-    hks = [1, 2, 3] if tier == "quick" else [1, 2, 3, 4, 5]
+    hks = [1, 2, 3]  # the map model holds 64 entries: k <= 3 (32 columns)
     for k in hks:
         for rev in (False, True):
             sfx = "_rev" if rev else ""
             out.append(Inst("c03_header_k%d%s" % (k, sfx), "verif_c03h", "composition",
-                            "c03_header::<%d>(&RANK_K%d, &INV_K%d, COUNT_K%d)" % (k, k, k, k), max(4 ** k + 2, k + 3),
+                            "c03_header::<%d>(&RANK_K%d, &INV_K%d, COUNT_K%d)" % (k, k, k, k), max(4 ** k + 2, 66),
                             {"clause": "CLI header names the canonical k-mers in column order", "k": k, "p": "symbolic column",
                              "map_model_iteration": "reversed" if rev else "insertion order", "tables": [k]},
                             core=(k <= 3), timeout=1800, cost=40.0 * 4 ** k, features=(["kmer/verif_rev_iter"] if rev else [])))
         out.append(Inst("c03_pyheader_k%d" % k, "verif_c03p", "pybindings", "c03_pyheader::<%d>(&RANK_K%d, &INV_K%d, COUNT_K%d)" % (k, k, k, k),
-                        max(4 ** k + 2, k + 3),
+                        max(4 ** k + 2, 66),
                         {"clause": "Python binding header names the canonical k-mers in column order", "k": k, "p": "symbolic column", "tables": [k]},
                         core=(k <= 3), timeout=1800, cost=40.0 * 4 ** k))
-    out.append(Inst("c03_pynew_k1", "verif_c03p", "pybindings", "c03_pynew::<1>(&RANK_K1, &INV_K1, COUNT_K1)", 6,
+    out.append(Inst("c03_pynew_k1", "verif_c03p", "pybindings", "c03_pynew::<1>(&RANK_K1, &INV_K1, COUNT_K1)", 66,
                     {"clause": "binding constructor executed by the solver stores the native tables", "k": 1, "tables": [1]}, core=False, timeout=1500, cost=300.0))
     return out
 
@@ -369,7 +374,7 @@ PROPS["C03"] = Prop(
     ],
     assumptions=COMMON_ASSUME + [HASHMAP_NOTE, BIO_NOTE,
                                  "for k >= 4 the rank/inverse tables are produced by running the real kmer_pos_maps(k) natively on the snapshot (input-free function) and embedded as constants; the quantified obligations over them are decided by the solver"],
-    outside=["k = 9, 10 (tables of 2^18 / 2^20 entries)", "header for k > 3 (quick) / k > 5 (thorough)",
+    outside=["k = 9, 10 (tables of 2^18 / 2^20 entries)", "header for k > 3 (the map model holds 64 entries)",
              "the wiring inside OligoComputer::new (calls rayon::current_num_threads) - the struct is built directly from the tables",
              "the join of the header vector with the delimiter presets (sits behind file I/O)", "OligoCgrComputer::new (calls rayon::current_num_threads)"],
     instances=c03_instances,
@@ -638,6 +643,10 @@ def c14_extract(inj, insts):
     start_pos = need(r"let start_pos = ([^;]+);", "start_pos")
     pos = need(r"write_at\(kvec_str\.as_bytes\(\),\s*([^;]+?)\);", "row write position", body, _re.S)
     hpos = need(r"write_at\(header\.as_bytes\(\),\s*([^;]+?)\);", "header write position", body, _re.S)
+    # guards of the row-length model: each value must be produced by the std fixed-width float
+    # formatting and the row assembled by join(delim) + newline; otherwise the model does not apply
+    vfmt = need(r"\.map\(\|val\|\s*(format!\(\"\{:\.\*\}\",\s*NUMBER_SIZE\s*-\s*2,\s*val\))\s*\)", "the value formatting `format!(\"{:.*}\", NUMBER_SIZE - 2, val)` (row-length model not applicable to this code)", body, _re.S)
+    rjoin = need(r"let kvec_str = (format!\(\"\{\}\\n\",\s*kvec_str\.join\(&self\.delim\)\));", "the row assembly `format!(\"{}\\n\", kvec_str.join(&self.delim))` (row-length model not applicable to this code)", body, _re.S)
 
     def sub(e):
         e = e.replace("self.kcount", "kcount").replace("self.delim.len()", "delim_len").replace("self.ksize", "K_UNUSED")
@@ -665,6 +674,7 @@ def c14_extract(inj, insts):
     inj.extra_evidence["c14c_extracted_expressions"] = {
         "NUMBER_SIZE": number_size, "per_line_size": per_line, "file_size": "seq_count " + tail, "header_addend": hadd,
         "start_pos": start_pos, "row_write_position": pos, "header_write_position": hpos,
+        "row_value_formatting (guard of the row-length model)": vfmt, "row_assembly (guard)": rjoin,
     }
     gen["C14C"] = code
     return gen
@@ -752,7 +762,7 @@ def c13_instances(tier, seed):
     for (k, n) in ([(1, 4), (2, 4)] if tier == "quick" else [(1, 5), (2, 5), (3, 5)]):
         out.append(Inst("c13_oligo_ascii_k%d_n%d" % (k, n), "verif_c13o", "pybindings", "c13_oligo_ascii::<%d, %d>(&RANK_K%d, &INV_K%d, COUNT_K%d)" % (k, n, k, k, k),
                         max(n + 2, kcount_of(k) + 2),
-                        {"clause": "oligo vector: binding vs core, bit-equal", "k": k, "max_len": n, "chars": "symbolic ASCII 0x04..=0x7F", "norm": "symbolic",
+                        {"clause": "oligo vector: binding vs core, bit-equal", "k": k, "max_len": n, "chars": "symbolic: ASCII 0x04..=0x7F or two-byte U+0080..=U+07FF", "norm": "symbolic",
                          "column": "symbolic", "tables": [k]}, core=(k <= 2), timeout=1800, cost=60.0 * n))
     for k in ([2] if tier == "quick" else [1, 2, 3]):
         out.append(Inst("c13_oligo_unicode_k%d" % k, "verif_c13o", "pybindings", "c13_oligo_unicode::<%d>(&RANK_K%d, &INV_K%d, COUNT_K%d)" % (k, k, k, k),
@@ -764,7 +774,7 @@ def c13_instances(tier, seed):
                         {"clause": "binding header equals core header", "k": k, "column": "symbolic", "tables": [k]}, core=(k <= 2), timeout=1800, cost=100.0))
     for n in ([2, 3] if tier == "quick" else [2, 3, 4]):
         out.append(Inst("c13_cgr_n%d" % n, "verif_c13c", "pybindings", "c13_cgr::<%d>()" % n, n + 2,
-                        {"clause": "CGR: binding vs core, same points, rejects the same inputs", "max_len": n, "chars": "symbolic ASCII 0x00..=0x7F",
+                        {"clause": "CGR: binding vs core, same points, rejects the same inputs", "max_len": n, "chars": "symbolic: ASCII 0x00..=0x7F or two-byte U+0080..=U+07FF",
                          "square": "symbolic 1..=2^20"}, core=(n <= 3), timeout=2400, cost=80.0 * n * n))
     for (k, n) in ([(2, 5), (31, 33)] if tier == "quick" else [(1, 5), (2, 6), (4, 8), (31, 34)]):
         out.append(Inst("c13_kmer_iter_k%d_n%d" % (k, n), "verif_c13k", "pybindings", "c13_kmer_iter::<%d, %d, %d>()" % (k, n, n - k + 2), n + 2,
@@ -793,10 +803,10 @@ PROPS["C13"] = Prop(
                "pybindings::kmer::KmerGenerator::new + inner generator", "pybindings::min::MinimiserGenerator::new + inner generator"],
     assumptions=COMMON_ASSUME + [HASHMAP_NOTE, BIO_NOTE,
                                  "std VecDeque replaced by the ring model in Kani builds (minimiser iterator instances)",
-                                 "strings are symbolic ASCII (String::from_utf8_unchecked on bytes < 0x80) plus four fixed non-ASCII strings",
+                                 "strings are up to N symbolic characters, each ASCII or a two-byte character U+0080..=U+07FF encoded as valid UTF-8 by construction (String::from_utf8_unchecked), plus four fixed strings with 2/3/4-byte characters",
                                  "only is_ok()/is_err() of PyResult is inspected; the PyErr object is never materialised or dropped"],
     outside=["everything that needs a live interpreter: ValueError type, tuple conversion, __next__ through PyRefMut, GIL", "vectorise_batch (rayon pool)",
-             "module registration in pip/ and conda/", "arbitrary (symbolic) non-ASCII strings"],
+             "module registration in pip/ and conda/", "symbolic three- and four-byte characters"],
     instances=c13_instances,
     shims=["hashmap", "bio", "vecdeque"],
     generate=gen_tables,
@@ -806,6 +816,7 @@ PROPS["C13"] = Prop(
         ("header length", "header-differs"),
         ("header differs", "header-differs"),
         ("disagree on accepting", "cgr-acceptance-differs"),
+        ("non-ASCII character is not treated", "cgr-acceptance-differs"),
         ("CGR point differs", "cgr-point-differs"),
         ("k-mer iterator yields", "kmer-iter-differs"),
         ("minimiser iterator yields", "min-iter-differs"),
